@@ -57,15 +57,35 @@ func (r *Request) GetResponse(done <-chan struct{}, respDuration time.Duration) 
 
 // HandlePFCPMsg handles different types of PFCP messages.
 func (pConn *PFCPConn) HandlePFCPMsg(buf []byte) {
+	// Shutdown removes the sessions under the same lock: a message is handled
+	// completely before that, or dropped after it.
+	pConn.handleMu.Lock()
+	released := pConn.handlePFCPMsg(buf)
+	pConn.handleMu.Unlock()
+
+	if released {
+		pConn.Shutdown()
+	}
+}
+
+// handlePFCPMsg reports whether the message was an Association Release Request.
+func (pConn *PFCPConn) handlePFCPMsg(buf []byte) (released bool) {
 	var (
 		reply message.Message
 		err   error
 	)
 
+	select {
+	case <-pConn.shutdown:
+		logger.PfcpLog.Debugln("ignoring message for a connection that is shutting down")
+		return false
+	default:
+	}
+
 	msg, err := message.Parse(buf)
 	if err != nil {
 		logger.PfcpLog.Errorf("ignoring undecodable message: %v, error: %v", buf, err)
-		return
+		return false
 	}
 
 	addr := pConn.RemoteAddr().String()
@@ -87,7 +107,7 @@ func (pConn *PFCPConn) HandlePFCPMsg(buf []byte) {
 
 	case message.MsgTypeAssociationReleaseRequest:
 		reply, err = pConn.handleAssociationReleaseRequest(msg)
-		defer pConn.Shutdown()
+		released = true
 
 	// Session related messages
 	case message.MsgTypeSessionEstablishmentRequest:
@@ -106,7 +126,7 @@ func (pConn *PFCPConn) HandlePFCPMsg(buf []byte) {
 
 	default:
 		logger.PfcpLog.Errorf("message type: %s is not currently supported", msgType)
-		return
+		return false
 	}
 
 	nodeID := pConn.nodeID.remote
@@ -124,6 +144,8 @@ func (pConn *PFCPConn) HandlePFCPMsg(buf []byte) {
 	if reply != nil {
 		pConn.SendPFCPMsg(reply)
 	}
+
+	return released
 }
 
 func (pConn *PFCPConn) SendPFCPMsg(msg message.Message) {
